@@ -1700,6 +1700,43 @@ def shard(arg):
     return res
 
 
+EXH_HTML = [['st', 'a', []], ['st', 'br', [['x', None]]], ['st', 'B', [['h', '&amp;#1114112;']]], ['et', 'a'], ['et', 'b'], ['et', 'br'],
+            ['se', 'p', []], ['d', 'x'], ['d', ''], ['c', 'k'], ['pi', 't d'], ['er', 'nbsp'], ['raise', 'ValueError']]
+EXH_XML = [['se', 'u}a', [['b', 'v']]], ['ee', 'u}a'], ['cd', 'x'], ['cd', 'y\n'], ['ns', None, 'u'], ['ens', None], ['sc'], ['ec'],
+           ['df', '&nbsp;', 2, 3], ['df', '&junk;', 4, 5], ['df', ' ', 6, 7], ['xerr', 8, 9]]
+
+
+def exhaustive_shard(arg):
+    """every callback sequence of length <= L over a small alphabet, in one batch and cut into two
+    batches at every place, through the real layer (scripted tokenizer) and the model"""
+    import itertools
+    idx, nshards, L = arg
+    res = Result()
+    cases = []
+    i = 0
+    for kind, alphabet in (('syn-html', EXH_HTML), ('syn-xml', EXH_XML)):
+        for n in range(L + 1):
+            for tup in itertools.product(range(len(alphabet)), repeat=n):
+                i += 1
+                if i % nshards != idx:
+                    continue
+                items = []
+                for j, a in enumerate(tup):
+                    it = list(alphabet[a])
+                    if it[0] not in ('raise', 'xerr', 'df'):
+                        it = it + [j + 1, 3 * j]
+                    items.append(it)
+                cuts = [None] + list(range(1, n))
+                for cut in cuts[:1 + (i % 3 == 0) * len(cuts)]:
+                    reads = [['t', items]] if cut is None else [['t', items[:cut]], ['t', items[cut:]]]
+                    cases.append({'kind': kind, 'script': {'reads': reads, 'close': []}})
+                if n and i % 5 == 0:
+                    cases.append({'kind': kind, 'script': {'reads': [['t', items[:-1]]], 'close': items[-1:]}})
+    process(cases, res)
+    res.count('exhaustive-scripted-sequences', len(cases))
+    return res
+
+
 FIXED = [
     {'kind': 'html', 'text': ''},
     {'kind': 'html', 'text': '<p>a<br>b</i>c'},
@@ -1740,6 +1777,9 @@ def run(ctx):
     res = Result()
     for r in pmap('harness.props.c07', 'shard', args):
         res.merge(r)
+    L = ctx.n(3, 4)
+    for r in pmap('harness.props.c07', 'exhaustive_shard', [(i, nsh, L) for i in range(nsh)]):
+        res.merge(r)
     process(FIXED + load_corpus(), res)
     # report a failing input of the real tokenizers before one of the scripted ones
     prio = {'html': 0, 'xml-text': 0, 'xml-tree': 1, 'html-bytes': 1, 'raw': 1, 'syn-html': 2, 'syn-xml': 2}
@@ -1748,7 +1788,9 @@ def run(ctx):
                 'control characters, declarations, marked sections), truncations and every prefix of valid documents, random bytes '
                 'under four codecs, documents longer than the 4 KiB buffer read in 1/7/4095/4096/4097 chunks and random schedules; '
                 'XML documents written from generated trees (namespaces, re-declarations, internal and HTML entities, CDATA, PIs, '
-                'comments, doctype, declaration), mutated / truncated XML; scripted callback sequences for both layers. '
+                'comments, doctype, declaration), mutated / truncated XML; scripted callback sequences for both layers, random and '
+                'exhaustive up to length %d over a 13/12-letter alphabet in every two-batch cutting. ' % L +
+                
                 'non-trivial = the real parser delivered at least 3 events; distinct by canonical JSON of the case')
     res.samples = res.samples[:6]
     return res
